@@ -13,6 +13,7 @@ itself (other properties own that), but the argument must be unchanged also then
 What is a theorem here: the container protocol (Props/C20.lean).  The non-mutation half is decided
 by these frame checks on generated inputs only; it is labelled so in MANIFEST/evidence.
 """
+import copy
 import io
 import random
 
@@ -67,7 +68,13 @@ def cases(rng, tier):
         yield {"k": "nested", "kind": "performance", "n": nparts}
     m = 25 if tier == "quick" else 1200
     for _ in range(m):
-        yield {"k": "frame", "seed": rng.randrange(2**31), "what": rng.choice(["score", "score", "part", "performance"])}
+        c = {"k": "frame", "seed": rng.randrange(2**31), "what": rng.choice(["score", "score", "part", "performance"])}
+        if c["what"] != "performance":
+            if rng.random() < 0.5:
+                c["warm"] = rng.choice([2, 16, 31, 63, 64, 95, 127, 128, 160, 255])
+            if rng.random() < 0.5:
+                c["edit_result"] = True
+        yield c
 
 
 def make_container(kind, n):
@@ -331,10 +338,23 @@ def frame_case(d, ev):
         for pd in sd["parts"]:
             if rng.random() < 0.5:
                 add_repeat(pd, rng)
+        # the argument may come with a HISTORY (reads in the middle of its construction, notes placed wrongly first and
+        # re-added, ties set last: gen_score.build_part `warm`); a twin with the same content and no history is kept
+        # to compare every result with ("gives an identical result" must not depend on what was read before)
+        twin = None
+        if d.get("warm"):
+            cold = G.build_score(copy.deepcopy(sd))
+            twin = cold.parts[0] if d["what"] == "part" else cold
+            for pd in sd["parts"]:
+                pd["warm"] = d["warm"]
         score = G.build_score(sd)
         obj = score.parts[0] if d["what"] == "part" else score
         eps = score_entry_points(obj, rng)
         fp = lambda: G.fingerprint_score(obj, with_ids=True)
+        if twin is not None and G.fingerprint_score(twin) != G.fingerprint_score(obj):
+            ev.oracle.append("history: a %s built with reads in between differs from the same %s built without: %s" % (
+                d["what"], d["what"], fp_diff(G.fingerprint_score(twin), G.fingerprint_score(obj))))
+            twin = None
     names = sorted(eps)
     rng.shuffle(names)
     order = names + names[::-1]  # every entry point twice, the second round in another order
@@ -362,6 +382,36 @@ def frame_case(d, ev):
                 ev.oracle.append("%s is not repeatable: second call on the same %s gives a different result" % (nm, d["what"]))
         else:
             results[nm] = (epoch, r)
+    # ---- the same entry points on the twin without history give the same results
+    if d["what"] != "performance" and twin is not None:
+        teps = score_entry_points(twin, rng)
+        for nm in names:
+            if nm not in results or results[nm][0] != 0:
+                continue  # raised, or the argument had been modified before this result was taken
+            try:
+                r = canon_result(teps[nm](twin))
+            except BaseException as e:
+                if isinstance(e, (KeyboardInterrupt, SystemExit)):
+                    raise
+                ev.oracle.append("history: %s works on a %s with a read/edit history and raises %s on the same %s without" % (
+                    nm, d["what"], type(e).__name__, d["what"]))
+                continue
+            if r != results[nm][1]:
+                ev.oracle.append("history: %s on a %s that was read from / re-edited while it was built (warm=%s) differs from "
+                                 "%s on an equal %s without that history: %s" % (
+                                     nm, d["what"], d["warm"], nm, d["what"], fp_diff(r, results[nm][1]) or "results differ"))
+        for nm, err in raised.items():
+            if nm in teps:
+                try:
+                    teps[nm](twin)
+                    ev.oracle.append("history: %s raises %s on a %s with a read/edit history and works on the same %s without" % (
+                        nm, err, d["what"], d["what"]))
+                except BaseException as e:
+                    if isinstance(e, (KeyboardInterrupt, SystemExit)):
+                        raise
+    # ---- results are independent objects: in-place operations on a RESULT (their input) must not reach the ARGUMENT
+    if d["what"] != "performance" and d.get("edit_result"):
+        edit_results(obj, d, ev, fp)
     # ---- array arguments: a view of a note array must copy (the argument array is left alone and not aliased)
     if d["what"] != "performance":
         import partitura.score as S
@@ -387,6 +437,70 @@ def frame_case(d, ev):
                                      "writing to the result would modify the argument" % (a, b, len(sl), len(na)))
                     break
     ev.info = {"raised": raised, "order": order[: len(names)]}
+
+
+def edit_results(obj, d, ev, fp):
+    """take the score-valued results (unfoldings, transposition), apply documented in-place operations to THEM, and
+    require the argument to stay as it was: only the input of an in-place operation may change"""
+    import partitura.score as S
+    import partitura.utils.music as M
+
+    part = obj if isinstance(obj, S.Part) else (obj.parts[0] if len(obj.parts) else None)
+    if part is None:
+        return
+    rng = random.Random(d["seed"] + 7)
+    makers = {
+        "unfold_part_maximal": lambda: S.unfold_part_maximal(part),
+        "unfold_part_minimal": lambda: S.unfold_part_minimal(part),
+        "iter_unfolded_parts": lambda: list(S.iter_unfolded_parts(part))[-1],
+        "unfold_part_maximal(update_ids)": lambda: S.unfold_part_maximal(part, update_ids=True),
+        "transpose": lambda: M.transpose(part, S.Interval(2, "M")),
+        "unfold_part_maximal(score)": lambda: S.unfold_part_maximal(obj) if isinstance(obj, S.Score) else S.unfold_part_maximal(part),
+    }
+    for nm in sorted(makers):
+        base = fp()
+        try:
+            res = makers[nm]()
+        except BaseException as e:
+            if isinstance(e, (KeyboardInterrupt, SystemExit)):
+                raise
+            continue
+        rp = res.parts[0] if isinstance(res, S.Score) else res
+        if fp() != base:
+            return  # reported by the frame clause already
+        notes = list(rp.notes)
+        done = []
+
+        def attempt(label, f):
+            try:
+                f()
+                done.append(label)
+            except BaseException as e:
+                if isinstance(e, (KeyboardInterrupt, SystemExit)):
+                    raise
+
+        if len(notes) >= 2:
+            a, b = sorted(rng.sample(range(len(notes)), 2))
+            attempt("Slur", lambda: rp.add(S.Slur(notes[a], notes[b]), notes[a].start.t, notes[b].end.t))
+            a, b = sorted(rng.sample(range(len(notes)), 2))
+            attempt("Tuplet", lambda: rp.add(S.Tuplet(notes[a], notes[b], actual_notes=3, normal_notes=2), notes[a].start.t, notes[b].end.t))
+        if notes:
+            n = rng.choice(notes)
+            attempt("attributes", lambda: (setattr(n, "voice", 9), setattr(n, "staff", 3), setattr(n, "step", "B"),
+                                           setattr(n, "symbolic_duration", {"type": "long", "dots": 0})))
+            attempt("remove", lambda: rp.remove(rng.choice(notes)))
+        attempt("add", lambda: rp.add(S.Note("C", 4, id="added"), 1, 3))
+        attempt("KeySignature", lambda: rp.add(S.KeySignature(3, "major"), 0))
+        attempt("set_quarter_duration", lambda: rp.set_quarter_duration(0, rp._quarter_durations[0] * 2))
+        attempt("tie_notes", lambda: S.tie_notes(rp))
+        attempt("add_measures", lambda: S.add_measures(rp))
+        attempt("fill_rests", lambda: S.fill_rests(rp))
+        attempt("use_musical_beat", lambda: rp.use_musical_beat())
+        now = fp()
+        if now != base:
+            ev.oracle.append("alias: in-place operations on the RESULT of %s (%s) changed the argument it was made from (%s): %s" % (
+                nm, ", ".join(done), d["what"], fp_diff(base, now)))
+            return
 
 
 def finding_key(d, f):
